@@ -166,9 +166,9 @@ PLAN['C07'] = {
 # --------------------------------------------------------------------------- C08
 PLAN['C08'] = {
     'stages': lambda tier, seed: (
-        [light('light_undo1', ['block', 'undoblock'], 5, 3, stack=1, und=1, x='big=150'),
+        [light('light_undo1', ['block', 'undoblock'], 5, 3, stack=1, und=1, x='big=150,lightbig=1'),
          light('light_undo2', ['block', 'undoblock'], 4, 2, stack=2, und=2)] if tier == 'quick' else
-        [light('light_undo1', ['block', 'undoblock'], 6, 3, stack=1, und=1, x='big=100'),
+        [light('light_undo1', ['block', 'undoblock'], 6, 3, stack=1, und=1, x='big=100,lightbig=1'),
          light('light_undo2', ['block', 'undoblock'], 5, 3, stack=2, und=2),
          light('light_undo3', ['block', 'undoblock'], 5, 2, stack=3, und=3)]),
     'rule': 'spec/LightClient.tla with the undo stack in the state: every block of every reachable (n, live, held) is '
@@ -1079,7 +1079,7 @@ for _p in ('C01', 'C05'):
 # --------------------------------------------------------------------------- C07: very large blocks; leaf values whose words cancel out
 _c07b = PLAN['C07']['stages']
 PLAN['C07']['stages'] = lambda tier, seed: _c07b(tier, seed) + [
-    light('light_bigblock', ['block', 'undoblock'], 5, 3, stack=1, und=1, x='big=40' if tier == 'quick' else 'big=10'),
+    light('light_bigblock', ['block', 'undoblock'], 5, 3, stack=1, und=1, x='big=40,lightbig=1' if tier == 'quick' else 'big=10,lightbig=1'),
     light('light_xorzero', ['block'], 5 if tier == 'quick' else 6, 3, x='xorzero=1')]
 PLAN['C07']['rule'] += (' Stage light_bigblock: a sample of the blocks is applied once more with 65 536 additional leaves (the forest grows by many '
                         'rows in one block): the cached proof must verify against the new state and equal the proof of a full prover. Stage '
